@@ -37,8 +37,12 @@ Definition src_read (cap : nat) (s : source) : list N * option ferr * source :=
 (* b.buf[b.r:b.w] as a list; b.err; the underlying reader.  fill() first slides the unread bytes to the start, so the
    space offered to the source is size - (w - r): the positions r, w themselves never matter. *)
 Record breader := mkB { b_buf : list N; b_err : option ferr; b_src : source }.
-Definition bsize : nat := 4096.                         (* defaultBufSize; ion-go never asks for another size *)
-Definition max_empty_reads : nat := 100.
+Definition default_bsize : nat := 4096.                 (* defaultBufSize; ion-go never asks for another size *)
+Definition max_empty_more : nat := 99.
+Definition max_empty_reads : nat := S max_empty_more.       (* maxConsecutiveEmptyReads = 100 *)
+
+Section WithSize.
+Variable bsize : nat.                                   (* len(b.buf); the theorems hold for every size >= 1 *)
 
 Definition new_breader (s : source) : breader := mkB [] None s.
 
@@ -56,7 +60,7 @@ Fixpoint fill_loop (fuel : nat) (b : breader) : breader * bool :=
     | None => match d with [] => fill_loop f b' | _ :: _ => (b', false) end
     end
   end.
-Definition fill (b : breader) : breader * bool := fill_loop max_empty_reads b.
+Definition fill (b : breader) : breader * bool := fill_loop (S max_empty_more) b.
 
 (* readErr(): returns b.err and clears it *)
 Definition read_err (b : breader) : option ferr * breader := (b_err b, mkB (b_buf b) None (b_src b)).
@@ -165,6 +169,8 @@ Fixpoint read_full_loop (fuel : nat) (m : nat) (acc : list N) (b : breader) : li
        end.
 Definition read_full (m : nat) (b : breader) : list N * option berr * breader := read_full_loop (S (S m)) m [] b.
 
+End WithSize.
+
 (* ---- SPEC: the same operations where the input is just the remaining bytes and the final error ---------------- *)
 Record flat := mkFlat { f_all : list N; f_fin : ferr }.
 
@@ -173,7 +179,7 @@ Definition spec_read_byte (x : flat) : rbyte * flat :=
   | c :: t => (RB c, mkFlat t (f_fin x))
   | [] => (RBErr (of_ferr (f_fin x)), x)
   end.
-Definition spec_peek (n : nat) (x : flat) : list N * option berr * flat :=
+Definition spec_peek (bsize : nat) (n : nat) (x : flat) : list N * option berr * flat :=
   if bsize <? n then (firstn bsize (f_all x), Some EBufferFull, x)
   else if length (f_all x) <? n then (f_all x, Some (of_ferr (f_fin x)), x)
   else (firstn n (f_all x), None, x).
@@ -194,27 +200,30 @@ Inductive ores :=
 | ResBytes (d : list N) (e : option berr)
 | ResCount (n : nat) (e : option berr).
 
-Definition do_op (o : op) (b : breader) : ores * breader :=
-  match o with
-  | OReadByte => let '(r, b') := read_byte b in (ResByte r, b')
-  | OPeek n => let '(d, e, b') := peek n b in (ResBytes d e, b')
-  | ODiscard n => let '(k, e, b') := discard n b in (ResCount k e, b')
-  | OReadFull n => let '(d, e, b') := read_full n b in (ResBytes d e, b')
-  end.
-Definition spec_op (o : op) (x : flat) : ores * flat :=
-  match o with
-  | OReadByte => let '(r, x') := spec_read_byte x in (ResByte r, x')
-  | OPeek n => let '(d, e, x') := spec_peek n x in (ResBytes d e, x')
-  | ODiscard n => let '(k, e, x') := spec_discard n x in (ResCount k e, x')
-  | OReadFull n => let '(d, e, x') := spec_read_full n x in (ResBytes d e, x')
-  end.
-
 (* a client is a strategy tree: it ends with a result or performs an operation and continues with what it was told *)
 Inductive client (R : Type) :=
 | Done (r : R)
 | Do (o : op) (k : ores -> client R).
 Arguments Done {R} _.
 Arguments Do {R} _ _.
+
+Section Clients.
+Variable bsize : nat.
+Definition do_op (o : op) (b : breader) : ores * breader :=
+  match o with
+  | OReadByte => let '(r, b') := read_byte bsize b in (ResByte r, b')
+  | OPeek n => let '(d, e, b') := peek bsize n b in (ResBytes d e, b')
+  | ODiscard n => let '(k, e, b') := discard bsize n b in (ResCount k e, b')
+  | OReadFull n => let '(d, e, b') := read_full bsize n b in (ResBytes d e, b')
+  end.
+Definition spec_op (o : op) (x : flat) : ores * flat :=
+  match o with
+  | OReadByte => let '(r, x') := spec_read_byte x in (ResByte r, x')
+  | OPeek n => let '(d, e, x') := spec_peek bsize n x in (ResBytes d e, x')
+  | ODiscard n => let '(k, e, x') := spec_discard n x in (ResCount k e, x')
+  | OReadFull n => let '(d, e, x') := spec_read_full n x in (ResBytes d e, x')
+  end.
+
 
 Fixpoint run {R} (c : client R) (b : breader) : R * breader :=
   match c with
@@ -238,3 +247,4 @@ Fixpoint spec_ops (os : list op) (x : flat) : list ores :=
   | [] => []
   | o :: t => let '(y, x') := spec_op o x in y :: spec_ops t x'
   end.
+End Clients.
